@@ -645,8 +645,25 @@ func (w *World) apply(op Op) Result {
 	case "untrust":
 		return Result{Err: w.Nodes[op.N].Book.RemoveTrustedNode(w.Wallets[op.Sealer].Addr)}
 	case "balance":
-		b, err := w.Balance(op.N, w.Wallets[op.Addr].Addr)
+		b, err := w.Balance(op.N, w.AddrOf(op))
 		return Result{Err: err, Balance: b}
+	case "repropose": // the transaction of an archived vertex proposed again
+		v := w.Arch.V[w.orderHash(op.V)]
+		if v == nil {
+			return Result{Err: errors.New("sim: no such vertex")}
+		}
+		return w.ProposeTx(op.N, v.Transaction)
+	case "craft-dup": // the transaction of an archived vertex sealed again by another wallet on parent L
+		v := w.Arch.V[w.orderHash(op.V)]
+		if v == nil {
+			return Result{Err: errors.New("sim: no such vertex")}
+		}
+		p := w.orderHash(op.L)
+		return Result{Vertex: w.Craft(op.Sealer, v.Transaction, p, p, 0)}
+	case "craft-parent": // an ordinary data vertex on parent L (used as a withheld parent)
+		p := w.orderHash(op.L)
+		tx := w.MakeTx(0, 1, spice.Melange{}, 8)
+		return Result{Vertex: w.Craft(w.RogueWallet(1), tx, p, p, 0), Tx: &tx}
 	case "batch":
 		res := make([]Result, len(op.Sub))
 		var wg sync.WaitGroup
@@ -661,6 +678,20 @@ func (w *World) apply(op Op) Result {
 		return Result{Sub: res}
 	}
 	return Result{Err: fmt.Errorf("sim: unknown op %q", op.K)}
+}
+
+// AddrOf resolves the address a balance op asks about: Note "absent" / "genesis-issuer" or wallet index Addr.
+func (w *World) AddrOf(op Op) string {
+	switch op.Note {
+	case "absent":
+		return ref.NewKey("absent", []byte("absent")).Addr
+	case "genesis-issuer":
+		return w.Genesis.Transaction.IssuerAddress
+	}
+	if op.Addr >= 0 && op.Addr < len(w.Wallets) {
+		return w.Wallets[op.Addr].Addr
+	}
+	return ""
 }
 
 func (w *World) orderHash(i int) Hash {
